@@ -2102,6 +2102,7 @@ func (c S3ApiController) PutActions(ctx *fiber.Ctx) error {
 
 		err = auth.VerifyObjectCopyAccess(ctx.Context(), c.be, copySource,
 			auth.AccessOptions{
+				Readonly:      c.readonly,
 				Acl:           parsedAcl,
 				AclPermission: auth.PermissionWrite,
 				IsRoot:        isRoot,
@@ -2429,6 +2430,7 @@ func (c S3ApiController) PutActions(ctx *fiber.Ctx) error {
 
 		err = auth.VerifyObjectCopyAccess(ctx.Context(), c.be, copySource,
 			auth.AccessOptions{
+				Readonly:      c.readonly,
 				Acl:           parsedAcl,
 				AclPermission: auth.PermissionWrite,
 				IsRoot:        isRoot,
